@@ -665,6 +665,9 @@ static int do_fcntl(int fd, int cmd, void *arg, int kind) {
     rec_begin(&r_, 1, nm);
     arg_fd(&r_, fd);
     arg_num(&r_, "type=", fl ? fl->l_type : -1);
+    arg_num(&r_, "whence=", fl ? fl->l_whence : -1);
+    arg_num(&r_, "start=", fl ? (long)fl->l_start : -1);
+    arg_num(&r_, "len=", fl ? (long)fl->l_len : -1);     /* 0 = to the end of the file, whatever it grows to */
     rec_before(&r_, nm);
     if (r_.act == 1) { rec_end(&r_, nm, -1, cur_errno, "F"); errno = cur_errno; return -1; }
     int ret = REALF;
